@@ -72,6 +72,8 @@ type spec struct {
 	Cuts     []int     `json:"cuts,omitempty"`
 	Singles  bool      `json:"singles,omitempty"`
 	GapMS    int       `json:"gap_ms,omitempty"`
+	N        int       `json:"n,omitempty"`     // burst: data frames in one segment
+	Stall    bool      `json:"stall,omitempty"` // burst: the peer's receive window is closed while they arrive
 }
 
 func (s spec) String() string {
@@ -807,6 +809,86 @@ func runInbound(h *hx) string {
 	return fmt.Sprintf("rejected%d", len(sp.In))
 }
 
+// ---- a burst of inbound data while not selected ----
+
+// runBurst: the peer pipelines N data frames in ONE segment at a connected, not-selected library
+// (optionally while it does not read, so that the library's answers back up behind a blocked
+// write). Every one of them is answered — N Reject.req(4) in arrival order, each echoing its own
+// session id and system bytes —, none is delivered, state and link stay, the select then works.
+func runBurst(h *hx) string {
+	w, sp := h.w, h.sp
+	sit, ok := h.reach(sp.Sit)
+	if !ok {
+		return ""
+	}
+	if !sit.linked || w.C.State() != hsms.NotSelectedState {
+		h.harness("burst family needs a connected not-selected situation, got %s state %v", sp.Sit, w.C.State())
+		return ""
+	}
+	w.Read()
+	_, del0, _ := w.Snapshot()
+	var seg []byte
+	var want []string
+	sids := []uint16{libSession, 0x0BAD, 0xFFFF, 0}
+	for i := 0; i < sp.N; i++ {
+		in := inFrame{inKinds[i%len(inKinds)], sids[i%len(sids)], 0x51000000 + uint32(i)}
+		seg = append(seg, in.frame().Bytes()...)
+		want = append(want, peer.Ctrl(peer.SRejectReq, in.Sid, 0, 4, in.Sys).Key())
+	}
+	if sp.Stall {
+		w.Peer.Stall()
+	}
+	w.SendRaw(seg)
+	if sp.Stall {
+		w.Advance(tLittle)
+		if n := len(w.Read()); n != 0 {
+			h.harness("burst: %d frames crossed a closed window", n)
+			return ""
+		}
+		w.Peer.Unstall()
+		w.Settle()
+	}
+	w.Advance(tLittle)
+	got := keys(w.Read())
+	where := fmt.Sprintf("%d data frames in one segment in situation %s (peer window closed while they arrive: %v)", sp.N, sp.Sit, sp.Stall)
+	for i := 0; i < len(want); i++ {
+		if i >= len(got) {
+			h.bad("burst:reject-missing", "%s: the library answered %d of them; frame %d (and later) got no Reject.req — want %s", where, len(got), i, want[i])
+			return ""
+		}
+		if got[i] != want[i] {
+			h.bad("burst:reject-content", "%s: answer %d is %s, want %s", where, i, got[i], want[i])
+			return ""
+		}
+	}
+	if len(got) > len(want) {
+		h.bad("burst:extra-frames", "%s: %d frames written for %d data frames: %v", where, len(got), len(want), got[len(want):min(len(got), len(want)+4)])
+		return ""
+	}
+	if _, del, _ := w.Snapshot(); len(del) != len(del0) {
+		h.bad("burst:delivered", "%s: %d message(s) reached a handler while not Selected", where, len(del)-len(del0))
+		return ""
+	}
+	if st := w.C.State(); st != hsms.NotSelectedState {
+		h.bad("burst:state", "%s: State() became %v", where, st)
+		return ""
+	}
+	if w.Peer.SawEOF() {
+		h.bad("burst:link-dropped", "%s: the library closed the connection", where)
+		return ""
+	}
+	if !h.linktestProbe("burst:link-dead:" + sp.Sit) {
+		return ""
+	}
+	if !sit.recover() {
+		if h.fail != nil && strings.HasPrefix(h.fail.key, "setup:select") {
+			h.fail.key = "burst:select-not-accepted:" + sp.Sit
+		}
+		return ""
+	}
+	return fmt.Sprintf("rejected%d", sp.N)
+}
+
 // ---- pipelining ----
 
 type pipePlan struct {
@@ -1000,6 +1082,8 @@ func run(t *testing.T, sp spec) (outcome string, fail *failure, leak string) {
 			outcome = runSend(h)
 		case "inbound":
 			outcome = runInbound(h)
+		case "burst":
+			outcome = runBurst(h)
 		case "pipe":
 			outcome = runPipe(h)
 		case "queued":
@@ -1067,6 +1151,8 @@ func check(c *vfw.Ctx, t *testing.T, sp spec) {
 		c.Outcome("inbound:" + sp.Sit + ":" + outcome)
 	case "queued":
 		c.Outcome("queued:" + outcome)
+	case "burst":
+		c.Outcome(fmt.Sprintf("burst:%s:stall=%v:%s", sp.Sit, sp.Stall, outcome))
 	default:
 		c.Outcome("pipe:" + sp.Stream + ":" + outcome)
 	}
@@ -1098,6 +1184,7 @@ func TestCheck(t *testing.T) {
 			"send: every not-selected situation reached by a history {never opened, dial black-holed, dial refused, listening, TCP up not selected, deselected by the peer, active select rejected (status 2), peer closed / sent Separate and the library waits in backoff, T6/T7 expiry, re-dialed not yet selected, closed, closed+reopened (connecting/listening/not yet selected)} x entry point {SendDataMessage W, no-W, SendDataMessageAsync, SendSECS2Message, ReplyDataMessage, ForwardDataMessage, ForwardDataMessageAsync, all seven in a row}: prompt not-selected/not-open error, zero bytes on every peer socket (at once, 50 ms later, on the next generation), drop counter +1 per call, linktest still answered, and after the select completes each entry point writes exactly its one frame. " +
 			"queued: the peer's receive window is closed, two asynchronous data sends {SendDataMessageAsync, ReplyDataMessage, ForwardDataMessageAsync}^2 are accepted while Selected (the first blocks in its write, the second waits in the queue), the peer deselects, the window reopens: only the write already in progress may complete, the queued message never reaches the wire (not even after a re-select) and is counted as one drop. " +
 			"inbound: every connected-not-selected situation x 1..2 data frames over kinds {primary W, primary, secondary, primary with body, SxF0, S9F1} x session id {own, foreign, 0xFFFF, 0} x system bytes {0, 1, 2^32-1, arbitrary} x session-id validation: exactly Reject.req(reason 4, echoed session id and system bytes), no delivery, state and link unchanged, linktest answered, select accepted, data then delivered byte-identical. " +
+			"burst: N data frames (kinds and session ids cycling, distinct system bytes) in ONE segment at a connected not-selected library, N in {3,64,65,66,200} (thorough {1,2,3,63..66,127..130,200,1000}; 64 is the default depth of the library's send queue), the peer reading or with its receive window closed while they arrive (the answers back up behind a blocked write) and opened 50 ms later: exactly N Reject.req(4) in arrival order each echoing its own session id and system bytes, no delivery, state and link unchanged, linktest answered, select accepted. " +
 			"pipe: streams [Select.rsp(0)][data]{1,2} (active), [Select.req][data]{1,2} (passive), [Deselect.req][Select.req][data] (both), [Select.req][data] against the active library's own outstanding select, under every segmentation with <= 2 cut points plus all-single-bytes (thorough: also 1 ms between segments, 3 cut points, ordered triples of inbound frame kinds, ordered pairs of entry points, equip/validation variants of send): deliveries in order and byte-identical, exact control answers, never a Reject. non-trivial = every case")
 		c.Assume("testing/synctest virtual time and durable-blocking detection", "sim in-memory network", "expected frames written from SEMI E37 (Reject.req layout, Select/Deselect/Linktest answers)", "Select.rsp status 2 and T6/T7 expiry drop the link (checked by the recipes, harness error otherwise)")
 		if c.Replay != nil {
@@ -1192,6 +1279,22 @@ func TestCheck(t *testing.T) {
 							if !do(spec{Fam: "inbound", Active: active, Validate: validate, Sit: sit, In: in}) {
 								return
 							}
+						}
+					}
+				}
+			}
+		}
+		// ---- burst ----
+		burstN, burstSits := []int{3, 64, 65, 66, 200}, []string{"not-selected", "deselected"}
+		if c.Thorough() {
+			burstN, burstSits = []int{1, 2, 3, 63, 64, 65, 66, 127, 128, 129, 130, 200, 1000}, linkedSits
+		}
+		for _, active := range roles {
+			for _, sit := range burstSits {
+				for _, n := range burstN {
+					for _, stall := range []bool{false, true} {
+						if !do(spec{Fam: "burst", Active: active, Sit: sit, N: n, Stall: stall}) {
+							return
 						}
 					}
 				}
